@@ -18,6 +18,12 @@ its shared-memory accesses: lock, `count_.load`, one scanned slot per step, bloc
 of the copy per step, `count_.store`, unlock.  Readers: `count_.load`, then one slot read per step.
 A blocked thread (mutex held by somebody else) leaves the state unchanged.
 
+Abstractions (stated, and covered only by the differential runs): readers address slot `i` by `i / blockSize`,
+`i % blockSize` (the code walks the `next` chain; the writer's walk IS modelled with the code's
+`(block, local_idx)` pair); `GetByKeyUnsafe`'s trailing walk over `next` pointers after the last scanned
+slot reads no cell and is not a step here (in C++ it is a data race on the non-atomic `next`, outside the
+SC abstraction).
+
 `Pc.fault` models a null-pointer dereference in the writer's block walk (`block = block->next` followed by
 `block->objects[..]`): the theorems show it is unreachable.
 -/
